@@ -6,7 +6,7 @@
    R is ANY commutative ring with an involution (Base.CRing), e.g. the reals or the complex numbers. *)
 From Coq Require Import List ZArith Arith Bool Lia.
 Import ListNotations.
-From RV Require Import Base.CRing Base.BigSum Model.SvdQn Model.Krylov Gen.KrylovSites Gen.SvdQnShape
+From RV Require Import Base.CRing Base.BigSum Model.SvdQn Model.Krylov Gen.KrylovSites Gen.SvdQnShape Gen.KrylovNorm
                        Proofs.SvdQnProofs Proofs.KrylovProofs.
 
 (* ------------------------------------------------------------------ blocked decompositions *)
@@ -269,6 +269,39 @@ Theorem C18_antihermitian_rayleigh_imag :
 Proof. exact antihermitian_rayleigh_imag. Qed.
 Print Assumptions C18_antihermitian_rayleigh_imag.
 
+(* NORMALISE, RUN, SCALE.  How expm_krylov treats the norm of vstart is read from the source by tx/krylovnorm.py on every run
+   (2-norm; UNCONDITIONAL division, out of place; V[0] = the normalised vector; every exit multiplies by nrmv exactly once;
+   convergence tolerance scaled by nrmv); these are the facts the model is written for ... *)
+Theorem C18_krylov_norm_shape : src_norm = ref_norm.
+Proof. exact norm_shape_ok. Qed.
+Print Assumptions C18_krylov_norm_shape.
+
+(* ... and with them the returned vector nrmv * core(vstart / nrmv) is homogeneous of degree 1 in the start vector: for every
+   factor c by which the norm scales and which has an inverse (any c > 0; core = the Lanczos run + kernel as a function of the
+   first basis vector, only assumed to depend on its entries).  Stated about the wrapper instantiated with the GENERATED
+   constants: a guarded normalisation (`if not np.isclose(nrmv, 1)`) makes C18_krylov_norm_shape fail, and
+   C18_ex_guarded_normalisation_refuted shows that the statement is then false. *)
+Theorem C18_krylov_homogeneous :
+  forall (R : CRing) (nrmf : vec R -> R) (inv : R -> R) (close1 : R -> bool) (core : vec R -> vec R),
+  (forall x y, (forall i, x i = y i) -> forall i, core x i = core y i) ->
+  forall (c : R) (v : vec R),
+  nrmf (fun i => rmul R c (v i)) = rmul R c (nrmf v) ->
+  rmul R c (inv c) = r1 R -> inv (rmul R c (nrmf v)) = rmul R (inv c) (inv (nrmf v)) ->
+  forall i, expm_wrapper R nrmf inv close1 core src_norm (fun l => rmul R c (v l)) i
+            = rmul R c (expm_wrapper R nrmf inv close1 core src_norm v i).
+Proof. exact wrapper_homogeneous_src. Qed.
+Print Assumptions C18_krylov_homogeneous.
+
+(* the same for the exact Lanczos data model: start vectors nrm0 * v0 and (c * nrm0) * v0 with the same unit first basis vector
+   take the same exit after the same number of iterations and the returned vectors differ by the factor c *)
+Theorem C18_krylov_return_homogeneous :
+  forall (R : CRing) N (A : matx R) inv nrm rpart (isz : R -> bool) bs conv v0 (nrm0 c : R) expT e it r,
+  krylov_return R N A inv nrm rpart isz bs conv v0 nrm0 expT = Some (e, it, r) ->
+  exists r', krylov_return R N A inv nrm rpart isz bs conv v0 (rmul R c nrm0) expT = Some (e, it, r') /\
+             forall i, r' i = rmul R c (r i).
+Proof. exact krylov_return_homogeneous. Qed.
+Print Assumptions C18_krylov_return_homogeneous.
+
 (* the Hermitian-operator precondition at EVERY call site of expm_krylov in mps/mps.py and tn/time_evolution.py
    (table regenerated on every run).  site_ok: the callable is  lambda y: h(y.reshape(shape)).ravel()  with h built by
    hop_expr*, or the factory function H_eff(.)/coef with coef real on every path, or  lambda y: f(y) * coef  where f is the
@@ -328,3 +361,15 @@ Example C18_ex_fullspace_hyps :
      = if Nat.eqb i l then r1 KEx.F3 else r0 KEx.F3) /\
   (forall w : vec KEx.F3, rcj KEx.F3 (KEx.nrm w) = KEx.nrm w) /\ (forall x : KEx.F3, rcj KEx.F3 x = x -> KEx.rpart x = x).
 Proof. exact KEx.fullspace_hyps. Qed.
+(* a guarded normalisation is not homogeneous (field with three elements) *)
+Example C18_ex_guarded_normalisation_refuted :
+  let sh := {| ns_two_norm := true; ns_unconditional := false; ns_out_of_place := true; ns_first_row := true;
+               ns_scale_once := true; ns_atol_scaled := true |} in
+  let nrmf := fun w : vec KEx.F3 => w 0 in
+  let close1 := fun x : KEx.f3 => match x with KEx.a2 => true | _ => false end in
+  let v : vec KEx.F3 := fun i => match i with 0 => KEx.a2 | _ => KEx.a0 end in
+  let c := KEx.a2 in
+  nrmf (fun i => KEx.mul c (v i)) = KEx.mul c (nrmf v) /\ KEx.mul c (KEx.inv c) = KEx.a1 /\
+  expm_wrapper KEx.F3 nrmf KEx.inv close1 (fun x => x) sh (fun l => KEx.mul c (v l)) 0
+  <> KEx.mul c (expm_wrapper KEx.F3 nrmf KEx.inv close1 (fun x => x) sh v 0).
+Proof. exact guarded_normalisation_refuted. Qed.
